@@ -1,6 +1,6 @@
 ------------------------ MODULE NdnPacketsCheckHistTrace ------------------------
 (* Histories over several real verifier objects of one class, recorded from the implementation:
-   record [insts, ev: <<[a |-> "Check", i, pn, pk, acc]>>]; acc = what the verifier answered.      *)
+   record [insts, ev: <<[a |-> "Check", i, pn, pk, tam, acc]>>]; acc = what the verifier answered.      *)
 EXTENDS NdnPacketsCheckHist, Json, IOUtils, TLCExt
 Traces == ndJsonDeserialize(IOEnv.TRACE_FILE)
 VARIABLES tid, l
@@ -9,7 +9,7 @@ Tr == Traces[tid].ev
 Max2(a, b) == IF a > b THEN a ELSE b
 TInit == tid \in 1..Len(Traces) /\ l = 1 /\ InitWith(Traces[tid].insts) /\ TLCSet(tid, 1)
 TCheck == /\ l <= Len(Tr) /\ Tr[l].a = "Check" /\ l' = l + 1 /\ UNCHANGED tid
-          /\ Check(Tr[l].i, Tr[l].pn, Tr[l].pk)
+          /\ Check(Tr[l].i, Tr[l].pn, Tr[l].pk, Tr[l].tam)
           /\ log'[Len(log')].acc = Tr[l].acc
 TSpec == TInit /\ [][TCheck]_tvars
 Mark == TLCSet(tid, Max2(TLCGet(tid), l))
